@@ -14,7 +14,7 @@ from fractions import Fraction
 
 from .. import nf
 from ..errors import AnalysisError
-from ..interp import Cat, Hooks, Interp, Intrinsic, Obj
+from ..interp import Cat, Hooks, Interp, Intrinsic, Obj, SimRaise
 from ..nf import Rat
 
 METHODS_DIR = "torchsde/_core/methods/"
@@ -133,7 +133,8 @@ def make_bm(log=None, wname="W", uname="U", aname="A"):
         if ra:
             out.append(nf.fn(aname, ta, tb))
         return out[0] if len(out) == 1 else tuple(out)
-    return Obj("bm", call_hook=call)
+    # the abstract Brownian motion answers every kind of query, so it presents itself as one that carries Levy areas
+    return Obj("bm", call_hook=call, attrs={"levy_area_approximation": "foster"})
 
 
 class StepHooks(Hooks):
@@ -168,34 +169,72 @@ class StepHooks(Hooks):
 
 
 
+def literal_slots(model, cls):
+    """Slots the constructors of `cls` (and its bases) initialise to a literal -- a cache that starts as None, a counter that
+    starts at 0.  The abstract solver objects are not built by running the constructors, so those are read off them."""
+    out = {}
+    for c in model.mro(cls):
+        init = c.methods.get("__init__")
+        if init is None:
+            continue
+        for st in init.node.body:
+            if isinstance(st, ast.Assign) and len(st.targets) == 1 and isinstance(st.targets[0], ast.Attribute) \
+                    and isinstance(st.targets[0].value, ast.Name) and st.targets[0].value.id == "self" \
+                    and st.targets[0].attr not in out:
+                try:
+                    v = ast.literal_eval(st.value)
+                except (ValueError, SyntaxError):
+                    continue
+                if isinstance(v, bool) or v is None or isinstance(v, str):
+                    out[st.targets[0].attr] = v
+                elif isinstance(v, (int, float)):
+                    out[st.targets[0].attr] = nf.frac(v)
+                elif isinstance(v, (list, dict, tuple, set)) and not v:
+                    out[st.targets[0].attr] = type(v)()
+    return out
+
+
 def solver_obj(model, cls, sde, bm, options=None, extra_attrs=None):
     # every slot BaseSDESolver.__init__ sets; the nominal step size `self.dt` is a symbol of its own, distinct from the
     # length t1 - t0 of the step being taken (a clipped last step or an adaptive trial is shorter than self.dt)
     attrs = {"sde": sde, "bm": bm, "options": options if options is not None else {},
              "dt": nf.sym("self.dt", True), "adaptive": False, "rtol": nf.sym("self.rtol", True),
              "atol": nf.sym("self.atol", True), "dt_min": nf.sym("self.dt_min", True)}
-    # slots a subclass constructor initialises to a literal (a cache that starts as None, a counter that starts at 0):
-    # the abstract object is not built by running the constructors, so those are read off them
-    for c in model.mro(cls):
+    for k, v in literal_slots(model, cls).items():
+        attrs.setdefault(k, v)
+    attrs.update(extra_attrs or {})
+    obj = Obj(f"solver:{cls.name}", cls=cls, attrs=attrs)
+    _constructor_tails(model, cls, obj, sde, bm, attrs["options"])
+    return obj
+
+
+def _constructor_tails(model, cls, obj, sde, bm, options):
+    """What a solver class's own constructor does *after* it has called the base constructor (a flag computed from the
+    declared noise type and the Brownian motion, say) is evaluated on the abstract object, statement by statement; a
+    statement the evaluator cannot follow is left out (the slot is then missing, and a step that reads it says so)."""
+    from ..interp import Hooks
+    for c in reversed(model.mro(cls)):
         init = c.methods.get("__init__")
         if init is None or c.name == "BaseSDESolver":
             continue
-        for st in init.node.body:
-            if isinstance(st, ast.Assign) and len(st.targets) == 1 and isinstance(st.targets[0], ast.Attribute) \
-                    and isinstance(st.targets[0].value, ast.Name) and st.targets[0].value.id == "self" \
-                    and st.targets[0].attr not in attrs:
-                try:
-                    v = ast.literal_eval(st.value)
-                except (ValueError, SyntaxError):
-                    continue
-                if isinstance(v, bool) or v is None or isinstance(v, str):
-                    attrs[st.targets[0].attr] = v
-                elif isinstance(v, (int, float)):
-                    attrs[st.targets[0].attr] = nf.frac(v)
-                elif isinstance(v, (list, dict, tuple, set)) and not v:
-                    attrs[st.targets[0].attr] = type(v)()
-    attrs.update(extra_attrs or {})
-    return Obj(f"solver:{cls.name}", cls=cls, attrs=attrs)
+        body = init.node.body
+        cut = next((i for i, st in enumerate(body) if isinstance(st, ast.Expr) and isinstance(st.value, ast.Call)
+                    and isinstance(st.value.func, ast.Attribute) and st.value.func.attr == "__init__"
+                    and "super" in ast.unparse(st.value.func.value)), None)
+        if cut is None:
+            continue
+        tail = [st for st in body[cut + 1:] if isinstance(st, (ast.Assign, ast.AnnAssign, ast.AugAssign))]
+        if not tail:
+            continue
+        it = Interp(model, Hooks())
+        env = {"self": obj, "sde": sde, "bm": bm, "options": options, "kwargs": {"bm": bm, "options": options}}
+        for name in init.params[1:]:
+            env.setdefault(name, options.get(name) if isinstance(options, dict) else None)
+        for st in tail:
+            try:
+                it.exec_stmt(st, env, init)
+            except (AnalysisError, SimRaise):
+                continue
 
 
 def symbols():
